@@ -45,7 +45,10 @@ def n(e, keep_casts=False):
     if k == "un":
         return ("un", e[1], n(e[2], keep_casts))
     if k == "ref":
-        return ("ref", n(e[-1], keep_casts))
+        inner = n(e[-1], keep_casts)
+        if inner[0] == "deref":
+            return inner[1]  # reborrow `&*x` is `x`
+        return ("ref", inner)
     if k in ("deref", "discr", "len"):
         return (k, n(e[1], keep_casts))
     if k == "field":
